@@ -166,7 +166,8 @@ AUDIT = {
             'input-file forms (gzip, no final newline, "+name" separator lines, .fq.gz); several strategies selected at once (5 sets of 2-3 '
             'strategies, judged by the clauses both readings of the property share); demux.py over 31 option / file-name forms (-n at and around '
             'chunk and lane boundaries, two lanes, --se, --norejects, -hd 1, -use A,B, two libraries, -merge, --ignore, auto-detection) and the '
-            'scheduler mode with an sbatch stand-in executing the generated lane and glue jobs; demultiplexing.log counters compared per block.',
+            'scheduler mode with an sbatch stand-in executing the generated lane and glue jobs; demultiplexing.log counters compared per block; '
+            '-use A,A (one strategy named twice).',
             'Without a reject handle only the demultiplexed side and the counters are compared; with several strategies a pair may legitimately '
             'reach both sinks (once per strategy); mate files of unequal length, three-file libraries and mixed single/paired lanes are outside '
             '"well-formed" and not generated.'),
@@ -179,13 +180,15 @@ AUDIT = {
     'C03': ('Audit extension: file level as a full product of 7 column layouts x gz x 5 lazyLoad forms x k x 8 accessor histories, each case with '
             'three live parsers (decoy directory with same-named files, parser under test, sibling with another k and spaceFill); file formats '
             '(no final newline, CRLF, trailing blank, repeated line, index 0, all-N whitelists); expansion histories on a fresh parser '
-            '(every non-decreasing sequence of expand() calls x lookups between calls x constructor k x index type).',
+            '(every non-decreasing sequence of expand() calls x lookups between calls x constructor k x index type); the shipped index lists '
+            'that mix barcode lengths and foreign entries, one whitelist per length class behind the real alias.',
             'Whitelists are sets of equal-length ACGTN strings; blank/comment lines, >2 columns (refused by the parser), shrinking re-expansion and '
             'barcodes added after an expansion are outside the domain.'),
     'C04': ('Audit extension: five loader configurations (default alias, none, two shipped index aliases with non-numeric identifiers, Hamming-1 '
             'barcodes so that raw != corrected barcode); header shapes 10-field, filter Y / control 18, already-demultiplexed k:v headers; each '
             'pair handed to the flagger as [R1,R2], [R1,None], [None,R2]; cell index 0; a refusal is accepted only when the name really exceeds '
-            '254 characters; name-level clause (every k:v pair in the produced name comes back as written); Single Cell Discoveries names.',
+            '254 characters; name-level clause (every k:v pair in the produced name comes back as written); Single Cell Discoveries names; names rendered the way the FASTQ '
+            'writers do (str(record)) as well as by asFastq(); a first-pass quality tag carried through a second demultiplexing pass.',
             'MI/SM only demanded when the encoder produced the fields they derive from; qualities above the top letter saturate by design; dual '
             'indices with "+" and "/1" suffixed headers are outside the stated header-safe alphabet.'),
     'C05': ('Audit extension: -tagthreads 1..4; job builder up to 12 contigs and contig lengths 99 999 / 100 000; CIGARs with clips, indels and '
@@ -227,13 +230,14 @@ AUDIT = {
     'C11': ('Audit extension: a contig in no blacklist/BED file; reads touching intervals from outside and inside; secondary/supplementary '
             'records; empty XA; float by-value; (--splitFeatures, -featureDelimiter) as one dimension; tag / alias / attribute lookups of '
             'metaFromRead in joined and single form; joined + -bin; reads dealt over two alignment files; -head; tables written as csv / pickle / '
-            'pickle.gz with and without --bulk read back from the file; --noNames; named two-level sample tags.',
+            'pickle.gz with and without --bulk read back from the file; --noNames; named two-level sample tags; the second of two '
+            'alignment files lists its contigs in the opposite order; a soft clip behind the aligned part.',
             'The oracle follows the CLI help strings; undocumented interactions (split + by-value, by-value or bin + bed, NM missing, XA vs NH '
             'disagreement, -head with several files) are not judged.'),
     'C12': ('Audit extension: dedup=False, ignore_mp, min_mq None/0, two key tags, skip_contigs (7 forms), head, alt_spans, path lists, explicit '
             'count_function on BAMs with records lacking SM / DS, discordant pairs, MAPQ 255, two-reason records; library pairs sharing unnamed '
             '(bulk) records; get_binned_counts and get_binned_counts_prefixed without a filter function, with regions and aliases; the installed '
-            'script in its own interpreter; read_counts as a complete truth table (144 records x 48 option sets).',
+            'script in its own interpreter; read_counts as a complete truth table (144 records x 48 option sets); 1-4 workers with one bin per job.',
             '|DS - read span| <= max_fragment_size; where the property is silent (head below the job count, alt_spans targets, records without '
             'DS, coordinate regions) only "never above / once per cell / invariant under the job split" is demanded.'),
     'C13': ('Audit extension: 28 option sets of get_consensus (dove_safe, min_phred_score at every quality boundary, only_include_refbase, '
@@ -247,7 +251,8 @@ AUDIT = {
             'position 2 / a C on the third position from the end (first complete contexts); outward-facing, same-strand, spliced, clipped '
             'and indel shapes; a vote family (mate disagreement at three quality relations, 1-3 further fragments with splits, majorities, '
             'ties and N copies, min_phred_score at the boundaries) judged by an independent implementation of the consensus definition; '
-            'a retag family (custom tag names, reads subsets); all clauses on every read of every fragment.',
+            'a retag family (custom tag names, reads subsets); all clauses on every read of every fragment; molecules created empty and '
+            'filled with add_fragment.',
             'A lower-case call on a non-conversion substitution is accepted; the safe span of same-strand mates is undefined (permissive '
             'oracle); the MD-missing branch is unreachable (get_consensus swallows it first).'),
     'C16': ('Audit extension: every point under each optim variant (nb, optim, unoptimised fallback); strand-less features and names '
@@ -285,7 +290,7 @@ AUDIT = {
             '-skip_contig, --consensus, --no_source_reads), output-path letters, a one-file merge, a modelled samtools; re-runs over the '
             'output of a run on ANOTHER input with old mtimes; the cluster mode under the local scheduler with stand-in tools; a real Pool '
             'with raising / dying workers; every BGZF block of the input damaged, and an impossible record in front of every record of an '
-            'unmapped tail.',
+            'unmapped tail; re-runs whose status file cannot be written, alone and followed by a fault at every later point.',
             'Kills land at Python-level line boundaries and modelled mid-write points; a hung execution is killed after 60 s and judged like '
             'a kill; -head, --no_rejects and --no_source_reads outputs are judged on existence, EOF, order and index only; a read-only '
             'directory is represented by OSError at every file-system call (the checks run as root).'),
